@@ -296,6 +296,7 @@ BUILTIN_EXC = {'RuntimeWarning', 'UserWarning', 'DeprecationWarning', 'Warning',
 
 VISITED = set()      # qualified names of every function of the analysed package that was interpreted in this process
 COVER = None         # development aid (tools/coverage.py): set of (module name, line) of the statements interpreted
+ARGCOVER = None      # development aid: (module name, function line) -> {parameter: set of values it was bound to}
 
 
 def numeric_table(module, node):
@@ -509,6 +510,16 @@ class Interp:
         self.stack.append(id(fn))
         self.calls.append(name or fn.name)
         VISITED.add('%s.%s' % (owner.qual if owner is not None else module.name, fn.name))
+        if ARGCOVER is not None and hasattr(fn, 'args'):
+            rec = ARGCOVER.setdefault((module.name, fn.lineno), {})
+            for a_ in fn.args.posonlyargs + fn.args.args + fn.args.kwonlyargs:
+                if a_.arg in ('self', 'cls'):
+                    continue
+                seen_ = rec.setdefault(a_.arg, set())
+                if len(seen_) < 6 and a_.arg in env:
+                    seen_.add(repr(env[a_.arg])[:60] if not isinstance(env[a_.arg], (Obj, ListV, DictV))
+                              else type(env[a_.arg]).__name__ + (':%d' % len(env[a_.arg].items)
+                                                                  if isinstance(env[a_.arg], ListV) else ''))
         try:
             fr = Frame(self, module, env, owner, self_obj if self_obj is not None else frame_self)
             is_gen = self._is_gen.get(id(fn))
@@ -1074,6 +1085,7 @@ class Frame:
         self.self_obj = self_obj
         self.in_vec_loop = 0
         self.global_names = set()       # names declared ``global`` in this function
+        self.handling = []              # exceptions whose handlers are being executed (innermost last)
 
     # ---- statements ----------------------------------------------------
     def exec_block(self, stmts):
@@ -1140,8 +1152,14 @@ class Frame:
             raise _Return(self.ev(st.value) if st.value is not None else None)
         if isinstance(st, ast.Raise):
             exc = 'Exception'
-            if st.exc is not None:
+            if st.exc is None:
+                if self.handling:
+                    raise _RaisedExc(self.handling[-1])      # bare raise: the exception being handled
+                exc = 'RuntimeError'                          # no active exception to re-raise
+            else:
                 e = st.exc
+                if isinstance(e, ast.Name) and isinstance(self.env.get(e.id), Raised):
+                    raise _RaisedExc(self.env[e.id])         # raise <caught exception>
                 if isinstance(e, ast.Call):
                     e = e.func
                 exc = ast.unparse(e)
@@ -1377,6 +1395,14 @@ class Frame:
 
     def exec_try(self, st):
         try:
+            self._exec_try(st)
+        except (_RaisedExc, _Return, _Break, _Continue):
+            self.exec_block(st.finalbody)       # the finally clause runs on every way out
+            raise
+        self.exec_block(st.finalbody)
+
+    def _exec_try(self, st):
+        try:
             self.exec_block(st.body)
         except _RaisedExc as r:
             for h in st.handlers:
@@ -1399,14 +1425,16 @@ class Frame:
                         'Exception' in names and r.raised.exc not in ('KeyboardInterrupt', 'SystemExit', 'GeneratorExit')):
                     if h.name:
                         self.env[h.name] = r.raised
-                    self.exec_block(h.body)
+                    self.handling.append(r.raised)
+                    try:
+                        self.exec_block(h.body)
+                    finally:
+                        self.handling.pop()
                     break
             else:
-                self.exec_block(st.finalbody)
                 raise
         else:
             self.exec_block(st.orelse)
-        self.exec_block(st.finalbody)
 
     def exec_for(self, st):
         I = self.I
